@@ -290,7 +290,8 @@ class Gen:
     def scenario(self, csv):
         r = self.r
         obs = [("index_valid",), ("iter",)]
-        k = r.choice(["ooo_batch", "carriers", "bad_batch", "stale_handle", "torn_update", "handle_times", "linebreaks", "zones"])
+        k = r.choice(["ooo_batch", "carriers", "bad_batch", "stale_handle", "torn_update", "handle_times", "linebreaks", "zones",
+                      "remove_first", "ooo_then_remove", "nested_not"])
         ops = []
         if k == "ooo_batch":
             # one insert_multiple whose points go backwards inside the batch, then time queries straight away
@@ -303,6 +304,42 @@ class Gen:
             for _ in range(6):
                 ops.append(r.choice([("search", self.simple("time"), None, r.random() < 0.5), ("count", self.simple("time"), self.mfilter()),
                                      ("get_timestamps", r.choice([None, "m1"])), ("select", ["time"], self.simple("time"), None)]))
+        elif k == "remove_first":
+            # remove (through the index) the FIRST stored point(s): every survivor moves down, one of them into slot 0
+            pts = self.points_batch(r.choice([4, 5, 7]), in_order=True)
+            for i, p in enumerate(pts):
+                p["tags"]["city"] = r.choice(["ams", "ber", "cai"])
+                p["fields"]["v"] = i + 1
+            nfirst = r.choice([1, 1, 2])
+            q = ("S", "fields", [("k", "v")], ("cmp", "<=", ("n", nfirst)))
+            ops += [("insert", pts, None, "multiple")] + obs + [("remove", q, None)] + obs
+            for _ in range(4):
+                ops.append(r.choice([("search", ("S", "tags", [("k", "city")], ("cmp", "==", ("s", r.choice(["ams", "ber", "cai"])))), None, False),
+                                     ("count", self.simple("tags"), None), ("get_tag_values", ["city"], None), ("search", self.simple("fields"), None, False),
+                                     ("select", ["tags.city", "fields.v"], ("S", "tags", [("k", "city")], ("exists",)), None)]))
+        elif k == "ooo_then_remove":
+            # storage order differs from time order; the rebuilt index then goes through a partial removal; time queries follow
+            pts = self.points_batch(r.choice([4, 5, 6]), in_order=True)
+            late = self.point(min(p["time"] for p in pts) - r.choice([1, 5]) * SEC)
+            for i, p in enumerate(pts + [late]):
+                p["tags"]["n"] = "abcdefgh"[i]
+            ops += [("insert", pts, None, "multiple"), ("insert", [late], None)] + obs + [("count", ("noop", "tags"), None), ("index_valid",)]
+            ops += [("remove", ("S", "tags", [("k", "n")], ("cmp", "==", ("s", r.choice("bcd")))), None)] + obs
+            tq = lambda: ("S", "time", [], ("cmp", r.choice(["<", "<=", ">", ">=", "=="]), ("t", r.choice(pts)["time"])))
+            ops += [("search", tq(), None, r.random() < 0.5), ("count", tq(), None), ("get_timestamps", None)]
+            ops += [("remove", ("S", "time", [], ("cmp", "<", ("t", pts[0]["time"]))), None)] + obs + [("search", tq(), None, False)]
+        elif k == "nested_not":
+            # negations over compounds that contain a negated field test, in either operand position
+            pts = self.points_batch(r.choice([5, 7]), in_order=True)
+            ops += [("insert", pts, None, "multiple")] + obs
+            f = lambda: ("not", self.simple("fields"))
+            t = lambda: self.simple(r.choice(["tags", "meas", "time"]))
+            shapes = [lambda: ("not", ("and", t(), f())), lambda: ("and", t(), f()), lambda: ("or", t(), f()), lambda: ("not", ("or", f(), t())),
+                      lambda: ("not", f()), lambda: ("and", ("or", t(), t()), ("not", ("and", t(), f())))]
+            for _ in range(4):
+                q = r.choice(shapes)()
+                ops.append(r.choice([("search", q, self.mfilter(), False), ("count", q, None), ("get", q, None)]))
+            ops += [("remove", r.choice(shapes)(), self.mfilter())] + obs + [("count", ("noop", "tags"), None)]
         elif k == "carriers":
             # remove (through the index) every point that carries some tag / field key, while other points stay
             pts = self.points_batch(r.choice([5, 7, 9]), in_order=True)
